@@ -3,7 +3,7 @@
    current /repo sources (coq/Gen/Gen_C10_schemas.v), so every theorem mentioning them is re-checked
    against what dump_raw / read_raw / Serialize / Deserialize say now. *)
 From Coq Require Import String List ZArith QArith.
-Require Import IPV.C10.Raw IPV.C10.RawSpec IPV.C10.RawProofs IPV.C10.RawLevels IPV.C10.Serial IPV.C10.RawFinal.
+Require Import IPV.C10.Raw IPV.C10.RawSpec IPV.C10.RawProofs IPV.C10.RawLevels IPV.C10.Serial IPV.C10.Copy IPV.C10.RawFinal.
 Require Import IPV.Gen.Gen_C10_schemas.
 Import ListNotations.
 Open Scope string_scope.
@@ -93,3 +93,19 @@ Theorem serialize_roundtrip_all_classes :
                   (snd (serialize X enc (map to_op ser) r)) = Some r.
 Proof. exact serialize_roundtrip_gen. Qed.
 Print Assumptions serialize_roundtrip_all_classes.
+
+(* every member printed by dump_raw is also pushed by Serialize (so the binary copy carries what the
+   text carries), except the listed one *)
+Theorem copy_path_covers_dump :
+  incl3b (copy_defects all_schemas all_serial) [ ("cxxSolution", "serialize:viscos_0", "not-copied") ] = true.
+Proof. exact copy_defects_known. Qed.
+Print Assumptions copy_path_covers_dump.
+
+(* ... and every member Serialize pushes is carried by the RAW text too (written, or restored from a literal,
+   or the component key written by the parent, or the user number), except the listed workspace members *)
+Theorem dump_covers_copy_path :
+  incl3b (dump_defects key_members all_schemas all_serial)
+         [ ("cxxSolution", "dump:new_def", "not-dumped");
+           ("cxxKineticsComp", "dump:moles_of_reaction", "not-dumped") ] = true.
+Proof. exact dump_defects_known. Qed.
+Print Assumptions dump_covers_copy_path.
